@@ -312,7 +312,83 @@ def replay(inp):
             exp = expected_image(before, pf.size, rec.array.dtype.fields[cname][1], mask, idxs, vals)
             return None if (err is None and after == exp) else f"err={err}, image differs={after != exp}"
         return None if (err == "Overflow" and after == before) else f"out of range: err={err}, modified={after != before}"
-    return "unknown replay kind"
+    return "RERUN"
+
+
+def alias_and_size_layer(ck, n_cases):
+    """values that are live views of the field being assigned (the right-hand side must be evaluated before the
+    left-hand side is modified), and arrays longer than any internal block size (range check before any write)"""
+    from laspy.point import dims
+    fmts = sorted(dims.POINT_FORMAT_DIMENSIONS.keys())
+    for ci in range(n_cases):
+        fmt = ck.rng.choice(fmts)
+        cname, name, mask = ck.rng.choice(subfields(fmt))
+        mx = mask >> lsb_of(mask)
+        lsb = lsb_of(mask)
+        n = ck.rng.choice([2, 5, 9, 33])
+        rec = new_record(fmt, n, ck.rng)
+        off = rec.array.dtype.fields[cname][1]
+        size = rec.array.dtype.itemsize
+        before = rec.array.tobytes()
+        cur = [(b >> lsb) & mx for b in rec.array[cname].tolist()]
+        how = ck.rng.choice(["self", "shift_right", "shift_left", "reverse", "view_roundtrip"])
+        inp = {"kind": "alias", "fmt": fmt, "field": name, "n": n, "how": how, "before": before.hex()[:400]}
+        ck.case(("alias", fmt, name, n, how, before), nontrivial=True)
+        ck.count("alias:" + how)
+        try:
+            v = rec[name]
+            if how == "self":
+                v[:] = v
+                idxs, vals = list(range(n)), cur
+            elif how == "shift_right":
+                v[1:] = v[:-1]
+                idxs, vals = list(range(1, n)), cur[:-1]
+            elif how == "shift_left":
+                v[:-1] = v[1:]
+                idxs, vals = list(range(n - 1)), cur[1:]
+            elif how == "reverse":
+                v[:] = v[::-1]
+                idxs, vals = list(range(n)), cur[::-1]
+            else:
+                c = rec[name]
+                c[:] = mx
+                rec[name] = c
+                idxs, vals = list(range(n)), [mx] * n
+        except Exception as e:
+            ck.fail(f"{name}: assigning a view of the same field ({how}) raised {type(e).__name__}: {e}", inp)
+            continue
+        exp = expected_image(before, size, off, mask, idxs, vals)
+        if rec.array.tobytes() != exp:
+            got = [(b >> lsb) & mx for b in rec.array[cname].tolist()]
+            ck.fail(f"{name}: after assigning a view of the same field ({how}) the field reads {got[:8]}, the values assigned were {vals[:8]} "
+                    f"(or other bits changed)", inp)
+    # long arrays: 70000 points, one out-of-range value late in the array -> OverflowError and nothing modified
+    for ci in range(2 if n_cases <= 40 else 8):
+        fmt = ck.rng.choice(fmts)
+        cname, name, mask = ck.rng.choice(subfields(fmt))
+        mx = mask >> lsb_of(mask)
+        n = 70000
+        import laspy
+        rec = laspy.PackedPointRecord.zeros(n, laspy.PointFormat(fmt))
+        rec.array[cname] = np.frombuffer(bytes(ck.rng.getrandbits(8) for _ in range(256)) * (n // 256 + 1), dtype="u1")[:n]
+        before = rec.array.tobytes()
+        vals = np.array([ck.rng.randrange(0, mx + 1) for _ in range(64)] * (n // 64 + 1), dtype="i8")[:n]
+        badpos = ck.rng.choice([65536, 65537, n - 1, 69000])
+        bad = vals.copy()
+        bad[badpos] = ck.rng.choice([mx + 1, -1])
+        inp = {"kind": "long", "fmt": fmt, "field": name, "n": n, "bad_index": badpos, "bad_value": int(bad[badpos])}
+        ck.case(("long", fmt, name, badpos, int(bad[badpos])), nontrivial=True)
+        ck.count("long_array")
+        err = do_assign(rec, name, slice(None), bad)
+        if err != "Overflow":
+            ck.fail(f"{name}[:] = 70000 values with {int(bad[badpos])} at index {badpos} did not raise OverflowError ({err})", inp)
+        elif rec.array.tobytes() != before:
+            ck.fail(f"{name}[:] = 70000 values with {int(bad[badpos])} at index {badpos}: OverflowError raised but the record was modified", inp)
+        err = do_assign(rec, name, slice(None), vals)
+        lsb = lsb_of(mask)
+        if err is not None or [(b >> lsb) & mx for b in rec.array[cname][:200].tolist()] != vals[:200].tolist() or \
+                [(b >> lsb) & mx for b in rec.array[cname][-200:].tolist()] != vals[-200:].tolist():
+            ck.fail(f"{name}[:] = 70000 in-range values: {err or 'values read back differ'}", inp)
 
 
 def run(ck):
@@ -325,6 +401,7 @@ def run(ck):
     ck.lean_props("C09", THEOREMS)
     single_byte_layer(ck)
     array_layer(ck, 300 if ck.tier == "quick" else 6000)
+    alias_and_size_layer(ck, 40 if ck.tier == "quick" else 600)
     ck.failures.sort(key=lambda f: (f["input"]["kind"] != "single", abs(f["input"].get("value", 0)) if isinstance(f["input"].get("value"), int) else 0))
     if ck.tier == "thorough":
         ck.leanchecker(["LasModel.Props.C09"])
